@@ -1137,6 +1137,10 @@ class ServiceInstance:
         # task would otherwise leave this set)
         self._can_answer_offers = False
 
+        # answers to FindService that still wait in a unicast send queue must not
+        # leave after the StopOffer
+        self.announcer.discard_queued_offers(self)
+
         # cyclic tasks send stop when they are cancelled
         if not self.timings.CYCLIC_OFFER_DELAY:
             self._send_offer(stop=True)
@@ -1314,6 +1318,17 @@ class ServiceAnnouncer:
         # FIXME stops and starts for the same instance in the same queue make no sense
         # and should probably be cleaned out
         queue.append(entry)
+
+    def discard_queued_offers(self, instance: ServiceInstance) -> None:
+        """
+        drops offers of the given instance that are queued for a unicast peer but not
+        sent yet. Called when the instance is stopped.
+        """
+        offer = instance.service.create_offer_entry(instance.timings.ANNOUNCE_TTL)
+        for remote, queue in self.send_queues.items():
+            if remote is None or queue.done:
+                continue
+            queue.data[:] = [entry for entry in queue.data if entry != offer]
 
     def announce_service(self, instance: ServiceInstance) -> None:
         if self.started:
